@@ -63,10 +63,26 @@ def main():
             pass
         out = ctx.result()
         out['status'] = 'ok'
-    except Exception:
-        out = ctx.result()
-        out['status'] = 'error'
-        out['error'] = traceback.format_exc()
+    except Exception as e:
+        # an exception escaping from the code under test is a finding (the
+        # workload is in the property's domain); one raised by the harness
+        # itself makes the run inconclusive
+        tb = traceback.extract_tb(e.__traceback__)
+        inner = tb[-1]
+        prefix = os.path.abspath(args['root']) + os.sep
+        if inner.filename.startswith(prefix) or '/ply/' in inner.filename:
+            lib = [f for f in tb if f.filename.startswith(prefix)][-1]
+            ctx.violations.append(dict(
+                key='crash/%s@%s' % (type(e).__name__, lib.name),
+                what='unexpected %s escaped from %s:%s during the workload: %s'
+                     % (type(e).__name__, lib.filename[len(prefix):], lib.name, e),
+                case=dict(traceback=traceback.format_exc()[-3000:]), shard=ctx.shard))
+            out = ctx.result()
+            out['status'] = 'ok'
+        else:
+            out = ctx.result()
+            out['status'] = 'error'
+            out['error'] = traceback.format_exc()
     out['reached'] = sorted(reached)
     with open(args['out'], 'w') as f:
         json.dump(jsonable(out), f)
